@@ -26,6 +26,8 @@
 (*             a triangle of pairs {1,2} {1,3} {2,3}, or near-twins (same request, STRICT / LOOSE) each       *)
 (*             disjoint from a third request;                                                                 *)
 (*             every other seeded group request gets LOOSE hops naming elements that do not exist (0..2)      *)
+(*   relaxables  overlapping vectors of which ONE is written `relaxable: true` - preferably one that cannot be *)
+(*             met - and the others not (OverlapPer / 2 seeded draws per mesh)                                *)
 (* A second family of graphs, MCGridGraphs (cfg: Graphs <- MCGridGraphs, BatchesOf <- MCGridBatchesOf), are   *)
 (* rows x GridCols lattices with single requests whose include lists of 2 or 3 ROADMs force long detours.     *)
 (* With GroupsExhaustive the pairs are ALL pairs of requests with include lists of <= 1 ROADM (used with      *)
@@ -70,7 +72,7 @@ Rnd(seed, k) == IF k = 0 THEN seed % 65521 ELSE Lcg(Rnd(seed, k - 1))
 Seed(m, k, fam) == (m % 60000) * 131 + k * 977 + fam * 7919 + Salt
 
 Rq(s, d, inc, strict) == [s |-> s, d |-> d, inc |-> inc, strict |-> strict]
-Batch(reqs, groups)   == [reqs |-> reqs, groups |-> groups]
+Batch(reqs, groups)   == [reqs |-> reqs, groups |-> groups, relax |-> [k \in 1..Len(groups) |-> 0]]
 OrdPairs == [k \in 1..(NSites * (NSites - 1)) |->
                LET a == (k - 1) \div (NSites - 1) + 1
                    j == ((k - 1) % (NSites - 1)) + 1
@@ -198,15 +200,16 @@ Triples(G) == {LET r1 == RndReq(G, Seed(G.id, k, 6), GroupShapes)
                    r2 == RndMate(G, r1, Seed(G.id, k, 7), GroupShapes)
                    r3 == RndMate(G, r1, Seed(G.id, k, 8), GroupShapes)
                IN  Batch(<<r1, Haunt(r2, Seed(G.id, k, 7), k), r3>>, <<<<1, 2, 3>>>>) : k \in 1..TriplePer}
-Overlaps(G) == {LET r1 == RndReq(G, Seed(G.id, k, 9), GroupShapes)
-                    r2 == RndMate(G, r1, Seed(G.id, k, 10), GroupShapes)
-                    r3 == RndMate(G, r1, Seed(G.id, k, 11), GroupShapes)
-                    q  == RndReq(G, Seed(G.id, k, 9), IncShapes)                \* near-twins, each disjoint from a third
-                    q3 == RndMate(G, q, Seed(G.id, k, 11), GroupShapes)
-                    v  == k % 10
+\* (fam, fam + 1, fam + 2: the seed families of the three requests; v: which shape the vectors take)
+OverlapBatch(G, k, fam, v) ==
+                LET r1 == RndReq(G, Seed(G.id, k, fam), GroupShapes)
+                    r2 == RndMate(G, r1, Seed(G.id, k, fam + 1), GroupShapes)
+                    r3 == RndMate(G, r1, Seed(G.id, k, fam + 2), GroupShapes)
+                    q  == RndReq(G, Seed(G.id, k, fam), IncShapes)              \* near-twins, each disjoint from a third
+                    q3 == RndMate(G, q, Seed(G.id, k, fam + 2), GroupShapes)
                 IN  IF v = 8 THEN Batch(<<Relabel(q, 1), Relabel(q, 0), q3>>, <<<<1, 3>>, <<2, 3>>>>)
                     ELSE IF v = 9 THEN Batch(<<Relabel(q, 0), Relabel(q, 1), q3>>, <<<<1, 3>>, <<2, 3>>>>)
-                    ELSE Batch(<<r1, r2, Haunt(r3, Seed(G.id, k, 11), k)>>,
+                    ELSE Batch(<<r1, r2, Haunt(r3, Seed(G.id, k, fam + 2), k)>>,
                                CASE v = 0 -> <<<<1, 2>>, <<2, 3>>>>      \* shared: last, then first
                                  [] v = 1 -> <<<<1, 2>>, <<1, 3>>>>      \* shared: first in both
                                  [] v = 2 -> <<<<2, 1>>, <<3, 1>>>>      \* shared: last in both
@@ -215,7 +218,24 @@ Overlaps(G) == {LET r1 == RndReq(G, Seed(G.id, k, 9), GroupShapes)
                                  [] v = 5 -> <<<<1, 2>>, <<3, 1, 2>>>>
                                  [] v = 6 -> <<<<1, 2>>, <<1, 3>>, <<2, 3>>>>   \* triangle of pairs: the last vector only
                                  [] OTHER -> <<<<2, 3>>, <<1, 2>>, <<3, 1>>>>)  \* holds requests the others routed
-                 : k \in 1..OverlapPer}
+Overlaps(G) == {OverlapBatch(G, k, 9, k % 10) : k \in 1..OverlapPer}
+
+\* ---- relaxable vectors: overlapping vectors again (own draws, every shape above), ONE of them written
+\*      `relaxable: true`, the others not.  A relaxable vector only matters when it cannot be met: when some vectors of
+\*      the batch have no link-disjoint combination at all (whatever the include lists), two times out of three the
+\*      relaxable one is taken among those; otherwise it is drawn among all of them.
+UnmetAlone(G, b) == LET f == FactsOf(G, b)
+                    IN  {k \in 1..Len(b.groups) : Solutions(G, Batch(b.reqs, <<b.groups[k]>>), f, "any", FALSE) = {}}
+WithRelaxable(G, b, x) ==
+  LET n    == Len(b.groups)
+      dead == IF x % 3 = 0 THEN {} ELSE UnmetAlone(G, b)
+      from == IF dead = {} THEN 1..n ELSE dead
+      j    == (x \div 3) % Cardinality(from)                                  \* the (j + 1)-th of them
+      pick == CHOOSE k \in from : Cardinality({m \in from : m < k}) = j
+  IN  [b EXCEPT !.relax = [k \in 1..n |-> IF k = pick THEN 1 ELSE 0]]
+RelaxPer == OverlapPer \div 2
+Relaxables(G) == {LET x == Rnd(Seed(G.id, k, 16), 3)
+                  IN  WithRelaxable(G, OverlapBatch(G, k, 13, Rnd(Seed(G.id, k, 16), 2) % 10), x) : k \in 1..RelaxPer}
 
 \* ---- exhaustive pairs (small NSites): all end points, include lists of <= 1 ROADM, both labels
 SmallReqs == UNION {{Rq(sd[1], sd[2], <<>>, <<>>)} \cup {Rq(sd[1], sd[2], <<n>>, <<l>>) : n \in Nodes, l \in {0, 1}} :
@@ -246,7 +266,7 @@ GridReq(G, seed, k) ==
   IN  Rq(s, d, inc, [j \in 1..Len(inc) |-> 0])
 MCGridBatchesOf(G) == {Batch(<<Relabel(GridReq(G, Seed(G.id, k, 12), k), (k \div 5) % 2)>>, <<>>) : k \in 1..LinePer}
 
-MCBatchesOf(G) == Singles(G) \cup Lines(G) \cup Twins(G) \cup Triples(G) \cup Overlaps(G)
+MCBatchesOf(G) == Singles(G) \cup Lines(G) \cup Twins(G) \cup Triples(G) \cup Overlaps(G) \cup Relaxables(G)
                   \cup (IF GroupsExhaustive THEN AllPairs(G) ELSE Pairs(G))
 
 -----------------------------------------------------------------------------
@@ -271,7 +291,7 @@ DeviationsAreRejected ==
 \* for one pair: overlapping routes and unjustified errors are rejected; and when the oracle says that not even
 \* the STRICT hops can be honoured disjointly, every pair of routes fails a clause that needs no search
 PairDeviationsAreRejected ==
-  (Answered /\ SinglePair(batch) /\ Len(batch.reqs) = 2)
+  (Answered /\ SinglePair(batch) /\ AllHard(batch) /\ Len(batch.reqs) = 2)
     => LET strong == Solutions(g, CleanBatch(batch), fx, "strong", TRUE) # {}
            weak   == Solutions(g, CleanBatch(batch), fx, "weak", FALSE) # {}
            Two(pq) == [err |-> 0, res |-> <<Found(pq[1]), Found(pq[2])>>]
@@ -279,6 +299,17 @@ PairDeviationsAreRejected ==
                 SurelyOverlapping(g, pq[1], pq[2]) => JudgeStructural(g, batch, Two(pq)) # {}
            /\ strong => ~PairComplete(g, CleanBatch(batch), fx, ErrOutcome)
            /\ ~weak => \A pq \in fx[1].P \X fx[2].P : JudgeStructural(g, batch, Two(pq)) # {}
+
+\* and with a relaxable vector in the batch: whatever happens to it, routes that surely share a link between two
+\* requests of a vector that is NOT relaxable are rejected by a clause that needs no search - and routes that overlap
+\* only where a relaxable vector speaks are not
+RelaxableDeviationsAreRejected ==
+  (Answered /\ ~AllHard(batch) /\ Len(batch.reqs) = 3)
+    => LET h == Hard(batch)
+           Three(t) == [err |-> 0, res |-> <<Found(t[1]), Found(t[2]), Found(t[3])>>]
+       IN  \A t \in fx[1].P \X fx[2].P \X fx[3].P :
+             LET hardhit == \E i, j \in 1..3 : MustDiffer(h, i, j) /\ SurelyOverlapping(g, t[i], t[j])
+             IN  hardhit <=> (<<0, "GroupsLinkDisjoint">> \in JudgeStructural(g, batch, Three(t)))
 
 -----------------------------------------------------------------------------
 (* generation for the replay into the code (B2): one JSON line per batch, with what the oracle says about it  *)
@@ -288,6 +319,9 @@ Info ==
    best    |-> [i \in Idx |-> fx[i].min],
    \* how many loop-free routes are shorter than the one the request must get (the candidates a search has to pass)
    shorter |-> [i \in Idx |-> IF fx[i].v = "ROUTED" THEN Cardinality({p \in fx[i].P : PathLen(g, p) < fx[i].min}) ELSE 0],
+   \* how many relaxable vectors of the batch cannot be met, even alone and without the include lists
+   unmet   |-> IF AllHard(batch) THEN 0
+               ELSE Cardinality({k \in UnmetAlone(g, batch) : batch.relax[k] = 1}),
    strong  |-> IF batch.groups = <<>> THEN 0 ELSE IF Solutions(g, CleanBatch(batch), fx, "strong", TRUE) # {} THEN 1 ELSE 0,
    weak    |-> IF batch.groups = <<>> THEN 0 ELSE IF Solutions(g, CleanBatch(batch), fx, "weak", FALSE) # {} THEN 1 ELSE 0]
 \* the diversity a synchronisation vector asks for in the service file: every kind that implies link diversity
